@@ -91,3 +91,19 @@ Definition rebase_tag (fx4 : bool) (new_terms : list str) (new_short : str) (t :
   | Tag i terms _ o => Tag i (if fx4 then new_terms else terms) new_short o
   | Group _ _ => t
   end.
+
+(* hed/models/query_service.py search_hed_objs on compiled queries: one row per
+   annotation in the order given, one column per query; a None entry or an
+   annotation without children ([if next_item:], HedGroup.__bool__) is all 0 *)
+Definition batch_row (fx : bool) (es : list expr) (row : option node) : list bool :=
+  match row with
+  | None => map (fun _ => false) es
+  | Some r =>
+      match children r with
+      | [] => map (fun _ => false) es
+      | _ :: _ => map (fun e => matches fx e r) es
+      end
+  end.
+
+Definition search_batch (fx : bool) (es : list expr) (rows : list (option node)) : list (list bool) :=
+  map (batch_row fx es) rows.
